@@ -69,8 +69,20 @@ func c07RefRedact(s string) string {
 	}
 }
 
+// c07RefStrip deletes the delimiters that occur in s, all at once (one left-to-right pass): what "removes exactly
+// the delimiters and nothing else" means. The result can contain a marker put together from the bytes around a
+// deleted one; the caller then does not apply the exactness law.
 func c07RefStrip(s string) string {
-	return strings.ReplaceAll(strings.ReplaceAll(s, "‹", ""), "›", "")
+	var b strings.Builder
+	for i := 0; i < len(s); {
+		if strings.HasPrefix(s[i:], "‹") || strings.HasPrefix(s[i:], "›") {
+			i += len("‹")
+			continue
+		}
+		b.WriteByte(s[i])
+		i++
+	}
+	return b.String()
 }
 
 // safe text of a well-formed string: everything outside envelopes
